@@ -317,6 +317,11 @@ class MixedEdgeGraph:
     def clear_edge_types(self):
         """Clear all edge types from graph."""
         self._edge_graphs.clear()
+        self._reset_adj_cache()
+
+    def _reset_adj_cache(self):
+        """Drop the cached ``adj`` mapping; it is keyed by the edge types present when first read."""
+        self.__dict__.pop("adj", None)
 
     def __iter__(self):
         """Iterate over the nodes. Use: 'for n in G'.
@@ -594,6 +599,7 @@ class MixedEdgeGraph:
 
         # ensure new graph type has all nodes
         self._edge_graphs[edge_type] = graph
+        self._reset_adj_cache()
 
         # if we have nodes already, or if we have an empty edge-type subgraph
         if self._node or self.edge_types:
@@ -608,6 +614,7 @@ class MixedEdgeGraph:
 
     def remove_edge_type(self, edge_type):
         self._edge_graphs.pop(edge_type)
+        self._reset_adj_cache()
 
     def to_undirected(self):
         """Returns an undirected representation of the digraph.
